@@ -76,6 +76,17 @@ pub fn run(ctx: &mut Ctx) {
         let lv = *ctx.rng.pick(&levels); let z = ctx.rng.chance(1, 2);
         one(ctx, &d, lv, z, kind);
     }
+    // block-size boundaries: incompressible and high-byte data of exactly the sizes at which a block is cut
+    // or a stored block is emitted whole (a 32768-byte block fills the dictionary ring exactly)
+    for &n in &[31744usize, 31745, 32767, 32768, 32769, 65535, 65536, 65537] {
+        for &lv in &[0u8, 1, 2, 6, 9] {
+            for kind in ["random", "highbyte"] {
+                if ctx.quick() && kind == "highbyte" && lv != 1 { continue; }
+                let d = plain::gen(&mut ctx.rng, kind, n);
+                one(ctx, &d, lv, n % 2 == 0, "block_size_boundary");
+            }
+        }
+    }
     // random sizes, all kinds x levels
     let n_cases = 120 * ctx.scale;
     for _ in 0..n_cases {
